@@ -736,6 +736,14 @@ def token_case(i):
         k = rng.randrange(len(crashes))
         t_cb = round(crashes[k] + downs[k] + rng.choice([0.002, 0.005, 0.02]), 3)
         cfg.update(E.policy_cfg(rng.choice(["latency-small", "latency-small", "shuffle"])))
+    if rng.random() < 0.25:
+        # the client's first calls meet a dead engine; a retry reaches the restarted one at the very instant it dies
+        # again - the callback may have been published although the call was never answered, and the client sends it
+        # once more after the second restart: two callback messages for one task
+        base = rng.choice([1.0, 2.0, 3.0])
+        t_cb = base
+        crashes = [round(base - 0.2, 1), base + 2.0]
+        downs = [1.5, rng.choice([0.2, 0.7])]
     return seed, {"scn": scn, "t_cb": t_cb, "crashes": crashes, "downs": downs}
 
 
